@@ -212,9 +212,18 @@ class Mode:
                 r, model, dt = P.check_sat(fs)
                 if r == "unsat":
                     return self._rec(name, "discharged", "z3", dt, detail="path infeasible", vacuous=True)
+                from . import subst
+
+                diff, nsub = subst.reduce_under(alg.v_sub(vg, ve), fs)
+                if nsub and alg.v_equal(diff, alg.Value({})):
+                    return self._rec(name, "discharged", "polyid+path-equations", time.time() - t, detail="%d equation(s) of the path substituted" % nsub)
                 if r != "sat":
                     return self._rec(name, "undecided", "z3", dt, detail="values differ on a path whose feasibility is unknown")
                 real = P.numeric_counterexample(fs, ("atom", alg.v_sub(vg, ve), "=="), model)
+                if real is None:
+                    st, _m, dt2 = P.check_implies(fs, ("atom", diff, "=="))
+                    if st == "discharged":
+                        return self._rec(name, "discharged", "z3", time.time() - t, detail="path condition implies the equality")
                 return self._rec(name, "failed", "z3+polyid", time.time() - t, cex={"env": real if real is not None else model, "diff": P.LAST_DIFF[0] if real is not None else 0.0},
                                  got=alg.fmt(vg, 8), exp=alg.fmt(ve, 8), detail="differs on a feasible path (a value-dependent branch in the code)")
             cex = find_counterexample(vg, ve, self.used)
